@@ -152,6 +152,8 @@ func TestStressJoin(t *testing.T) {
 				if noCopy {
 					dsc.Release()
 				} else {
+					// the consumer owns a copy-mode slice, spare capacity included (what append would write to)
+					s = s[:cap(s)]
 					for i := range s {
 						s[i] = -1
 					}
@@ -207,17 +209,27 @@ func TestStressUnite(t *testing.T) {
 				_ = check
 			}()
 			total := 0
+			keptU := [][]int{}
 			for s := range dsc.Output() {
 				total += len(s)
 				if noCopy {
 					dsc.Release()
 				} else {
+					s = s[:cap(s)]
 					for i := range s {
-						s[i] = 7 // the consumer owns a copy-mode slice
+						s[i] = 7 // the consumer owns a copy-mode slice, spare capacity included
 					}
+					keptU = append(keptU, s)
 				}
 			}
 			wg.Wait()
+			for _, s := range keptU {
+				for _, v := range s {
+					if v != 7 {
+						t.Fatal("a retained copy-mode slice was modified")
+					}
+				}
+			}
 			exp := 0
 			for i := 0; i < 600; i++ {
 				exp += []int{0, 1, 3, 5, 6, 7, 12}[i%7]
